@@ -28,6 +28,7 @@ def run(chk):
     batcher.watcher_lists(chk, P, "C07")
     batcher.retry_remainder(chk, P, "C07")
     batcher.who_may(chk, P, "C07")
+    batcher.constructor_rule(chk, P, "C07")
     batcher.blocking_flush_sync(chk, P, "C07")
     batcher.tokio_wait(chk, P, "C07")
     end_to_end(chk, P)
